@@ -114,7 +114,7 @@ pub fn oneshot_get_type( ty: &Type, target: &str ) -> Result<Type,String> {
 
     if let syn::Type::Path(type_path) = &ty {
         if let Some(seg) = type_path.path.segments.last(){
-            if target.eq(target) {
+            if seg.ident == target {
                 
                 let gen_args = seg.arguments.clone();
                 if let syn::PathArguments::AngleBracketed(ang_brck_gen_arg) = &gen_args{
